@@ -1226,3 +1226,5 @@ def check(src, rep, tier):
     soft.guard('C19.R8', r8_malformed_entries, src)
     from . import common
     rep.guard('C19.R4', common.check_error_construction, src, 'C19.R4', 'debian_support', ('update_file', 'download_file', 'download_gunzip_lines', 'replace_file'), 0)
+    from . import common as _common_flags
+    rep.guard('C19.R8', _common_flags.check_re_positional_flags, src, 'C19.R8', 'debian_support', 'an index entry with more columns than that is read as fewer')
